@@ -1,4 +1,5 @@
 import OmplModel.Proofs.SpaceBounds
+import OmplModel.Proofs.SpaceBoundsValid
 /-!
 C08 — bound enforcement and every sampler keep states inside the space.
 Property theorems only (helper lemmas: `Proofs/SpaceBounds*.lean`).  `[EX]` = exact real arithmetic
@@ -191,5 +192,73 @@ theorem enforce_idem_so3_partial (x y z w : ℝ) :
   obtain ⟨a, b, c, d, he, hs⟩ := so3Enforce_sat x y z w
   obtain ⟨k, hk, he2⟩ := so3Enforce_close hs
   exact ⟨a, b, c, d, k, he, hk, he2⟩
+
+/-! ### valid-state samplers `[AF]`
+
+`Validated s s' x c` : among the validity queries recorded between oracle states `s` and `s'` there is one about
+the state `x` that was answered `true` (with clearance `c`).  The theorems hold for every state type `σ`, every
+clearance type `κ`, every oracle (sample stream, answer stream — not necessarily consistent with a predicate) and
+every attempt limit; by parametricity in `σ` the witness query is the one made on the returned state object.
+`validSampler_valid` specialises them to an oracle that answers by a predicate. -/
+section
+variable {σ κ : Type}
+
+/-- UniformValidStateSampler::sample / sampleNear -/
+theorem validSampler_sound_uniform (o : Orc σ κ) (c : Call) (attempts : Nat) (s : OS σ κ) :
+    (uniformV o c attempts s).ok = true →
+    ∃ k, Validated s (uniformV o c attempts s).os (uniformV o c attempts s).st k :=
+  uniformV_sound o c attempts s
+
+/-- GaussianValidStateSampler: returns `state` if `v1 ∧ ¬v2`, `temp` if `¬v1 ∧ v2` -/
+theorem validSampler_sound_gaussian (o : Orc σ κ) (c : Call) (attempts : Nat) (s : OS σ κ) :
+    (gaussV o c attempts s).ok = true →
+    ∃ k, Validated s (gaussV o c attempts s).os (gaussV o c attempts s).st k :=
+  gaussV_sound o c attempts s
+
+/-- ObstacleBasedValidStateSampler with DiscreteMotionValidator::checkMotion(temp, state, lastValid), for every
+segment count and every interpolation function with `interpolate(a, b, 0) = a` (finding C08-F18: SO(3)'s slerp does
+not satisfy this bit for bit) -/
+theorem validSampler_sound_obstacleBased (o : Orc σ κ) (segs : σ → σ → Nat) (interp : σ → σ → Nat → Nat → σ)
+    (h0 : ∀ a b n, interp a b 0 n = a) (c : Call) (attempts : Nat) (s : OS σ κ) :
+    (obstacleV o segs interp c attempts s).ok = true →
+    ∃ k, Validated s (obstacleV o segs interp c attempts s).os (obstacleV o segs interp c attempts s).st k :=
+  obstacleV_sound o segs interp h0 c attempts s
+
+/-- BridgeTestValidStateSampler: the returned midpoint is the state that was tested last -/
+theorem validSampler_sound_bridgeTest (o : Orc σ κ) (mid : σ → σ → σ) (c : Call) (attempts : Nat) (s : OS σ κ) :
+    (bridgeV o mid c attempts s).ok = true →
+    ∃ k, Validated s (bridgeV o mid c attempts s).os (bridgeV o mid c attempts s).st k :=
+  (bridgeV_ext_sound o mid c attempts s).2
+
+/-- MaximizeClearanceValidStateSampler, any number of improvement attempts -/
+theorem validSampler_sound_maximizeClearance (o : Orc σ κ) (lt : κ → κ → Bool) (c : Call) (attempts improve : Nat)
+    (s : OS σ κ) : (maxClearV o lt c attempts improve s).ok = true →
+    ∃ k, Validated s (maxClearV o lt c attempts improve s).os (maxClearV o lt c attempts improve s).st k :=
+  maxClearV_sound o lt c attempts improve s
+
+/-- MinimumClearanceValidStateSampler: valid, and the recorded clearance is not below the bound -/
+theorem validSampler_sound_minimumClearance (o : Orc σ κ) (lt : κ → κ → Bool) (clearance : κ) (c : Call)
+    (attempts : Nat) (s : OS σ κ) : (minClearV o lt clearance c attempts s).ok = true →
+    ∃ k, Validated s (minClearV o lt clearance c attempts s).os (minClearV o lt clearance c attempts s).st k ∧
+      lt k clearance = false :=
+  minClearV_sound o lt clearance c attempts s
+
+/-- if the checker answers by a predicate (every recorded answer equals `valid` of the queried state), a validated
+state is valid: "every state a valid-state sampler returns with success is valid", for every validity predicate -/
+theorem validSampler_valid (valid : σ → Bool) (s s' : OS σ κ) (x : σ) (k : κ)
+    (hcons : ∀ e ∈ s'.log, e.2.1 = valid e.1) (h : Validated s s' x k) : valid x = true := by
+  obtain ⟨new, e, m⟩ := h
+  have := hcons (x, true, k) (by rw [e]; exact List.mem_append_left _ m)
+  exact this.symm
+
+-- non-vacuity: an oracle whose second sample is valid; Uniform with 3 attempts succeeds with that sample
+example : (uniformV (σ := Nat) (κ := Nat) ⟨fun k => 10 + k, fun k => (k == 1, 0)⟩ .uniform 2 {}).ok = true ∧
+    (uniformV (σ := Nat) (κ := Nat) ⟨fun k => 10 + k, fun k => (k == 1, 0)⟩ .uniform 2 {}).st = 11 := by decide
+-- Gaussian returns `temp` when only the second answer is `true`
+example : (gaussV (σ := Nat) (κ := Nat) ⟨fun k => 10 + k, fun k => (k == 1, 0)⟩ .uniform 0 {}).st = 11 := by decide
+-- ObstacleBased: invalid 10, valid 11, motion 11 -> 10 with 3 segments fails at the second test state: returns the first
+example : (obstacleV (σ := Nat) (κ := Nat) ⟨fun k => 10 + k, fun k => (k == 1 || k == 2, 0)⟩ (fun _ _ => 3)
+    (fun a _ j _ => if j = 0 then a else 100 + j) .uniform 4 {}).st = 101 := by decide
+end
 
 end OmplModel.SpaceBounds.C08
